@@ -8,12 +8,21 @@
      stream      off, size, got, err          StreamContent output
      compact     kept, garbage                CompactFileChunks over the top-level data chunks
      manifestize batch, res                   (Verif)MaybeManifestize; res = new list as resolved
-     nest        res                          the whole list packed into one manifest       *)
+     nest        res                          the whole list packed into one manifest
+     readall     got, err                     filer.ReadAll (a MasterClient whose location cache the harness filled)
+     sopen       via ("filer" | "master")     NewChunkStreamReader / NewChunkStreamReaderFromFiler over the list
+     sseek       off, whence (0,1,2), res, err   ChunkStreamReader.Seek
+     sread       n, got (the nret bytes handed out), nret, err   ChunkStreamReader.Read
+     tsize       res                          TotalSize of the top-level list
+     fsize       attr, res                    FileSize of an entry with that list and size attribute attr
+     snap                                     the current list is remembered as the earlier version
+     minus       dir (0: earlier minus current, 1: current minus earlier), res (ids), err   MinusChunks *)
 EXTENDS ChunkOverlay, TraceKit
 tvars == <<vars, kitvars>>
 Range(s) == {s[k] : k \in 1..Len(s)}
 TraceInit == Init /\ KitInit
-TraceReset == IsReset /\ top' = Ev.list /\ data' = Ev.payload /\ fsize' = Ev.fsize /\ UNCHANGED hist
+TraceReset == IsReset /\ top' = Ev.list /\ data' = Ev.payload /\ fsize' = Ev.fsize /\ rd' = NoReader /\ old' = <<>>
+              /\ UNCHANGED hist
 TraceSkip == SkipStep /\ UNCHANGED vars
 TAppend == IsEvent("append") /\ Strict /\ Append_(Ev.list, Ev.payload, Ev.fsize) /\ UNCHANGED hist
 TView == IsEvent("view") /\ Strict /\ View(Ev.off, Ev.size, Ev.res) /\ UNCHANGED hist
@@ -24,6 +33,19 @@ TStream == /\ IsEvent("stream") /\ Ev.err = "" /\ UNCHANGED hist
 TCompact == IsEvent("compact") /\ Strict /\ Compact(Range(Ev.kept), Range(Ev.garbage)) /\ UNCHANGED hist
 TManifestize == IsEvent("manifestize") /\ Strict /\ Ev.err = "" /\ Reorganize(Ev.res) /\ UNCHANGED hist
 TNest == IsEvent("nest") /\ Strict /\ Ev.err = "" /\ Reorganize(Ev.res) /\ UNCHANGED hist
+TReadAll == /\ IsEvent("readall") /\ Ev.err = "" /\ UNCHANGED hist
+            /\ \/ Strict /\ Stream(0, -1, Ev.got)
+               \/ Deviate("C17-stream-skips-holes") /\ StreamDev(0, -1, Ev.got)
+TSOpen == IsEvent("sopen") /\ Strict /\ SOpen /\ UNCHANGED hist
+TSSeek == IsEvent("sseek") /\ Strict /\ SSeek(Ev.off, Ev.whence, Ev.res, Ev.err) /\ UNCHANGED hist
+TSRead == /\ IsEvent("sread") /\ UNCHANGED hist
+          /\ \/ Strict /\ SRead(Ev.n, Ev.got, Ev.nret, Ev.err)
+             \/ Deviate("C17-stream-skips-holes") /\ SReadDev(Ev.n, Ev.got, Ev.nret, Ev.err)
+TTotalSize == IsEvent("tsize") /\ Strict /\ TotalSize_(Ev.res) /\ UNCHANGED hist
+TFileSize == IsEvent("fsize") /\ Strict /\ FileSize_(Ev.attr, Ev.res) /\ UNCHANGED hist
+TSnap == IsEvent("snap") /\ Strict /\ Snap /\ UNCHANGED hist
+TMinus == IsEvent("minus") /\ Strict /\ Ev.err = "" /\ Minus(Ev.dir, Ev.res) /\ UNCHANGED hist
 TraceNext == TraceReset \/ TraceSkip \/ TAppend \/ TView \/ TReadAt \/ TStream \/ TCompact \/ TManifestize \/ TNest
+             \/ TReadAll \/ TSOpen \/ TSSeek \/ TSRead \/ TTotalSize \/ TFileSize \/ TSnap \/ TMinus
 TraceSpec == TraceInit /\ [][TraceNext]_tvars
 =============================================================================
